@@ -135,6 +135,14 @@ def e_stats_large(inp):
         big = big.astype(float)
     b = B.Background2D(big, (330, 324), filter_size=1, bkg_estimator=B.MeanBackground(), exclude_percentile=60.0)
     out += [b.background_mesh, b.background_rms_mesh]
+    # a pedestal that is huge compared with the noise: any hidden single-precision step would show in the RMS
+    if np.asarray(_strip(big)).dtype == np.float32:      # single precision cannot hold this scene: promoted first (no claim for f4 here)
+        big = big.astype(np.float64)
+    ped = (big - np.asarray(3000, dtype=np.asarray(_strip(big)).dtype) * (unit if unit is not None else 1)) * 0.001 + 200000.0 * (unit if unit is not None else 1)
+    if str(np.asarray(_strip(d)).dtype) == '>f8':
+        ped = ped.astype('>f8')
+    b2 = B.Background2D(ped, (330, 324), filter_size=1, bkg_estimator=B.MeanBackground(), exclude_percentile=60.0)
+    out += [b2.background_mesh - 200000.0 * (unit if unit is not None else 1), b2.background_rms_mesh * 1000.0]
     return out
 
 
